@@ -15,6 +15,10 @@ package peering
 //   * The run executes with GOMAXPROCS(1): goroutines spawned by the service (go startIfDisconnected, ...) do
 //     not run before the harness yields ("settle"), which is how a notification goroutine is made to run after
 //     Stop()/RemovePeer().  The order is never assumed, only observed: the spec validates what happened.
+//   * handler.stop() is observed and gated at its sub-steps: every handler's ph.cancel is replaced by a wrapper that
+//     logs HCancel (with what it sees of the timer) at the moment of the real cancel and, when the script asks for it
+//     ("stop pre|post|both", "remove p pre|post|both"), lets all pending goroutines of the service run before and/or
+//     after the real cancel, i.e. between the sub-steps of stop() in whatever order the code has them.
 //   * nextBackoff itself is driven directly (sequences of 100 consecutive failures) for spec/Peering/TraceBackoff.
 //
 // Projection (trusted): peer <-> "a"/"b", handler <-> creation number, timer state none/armed/fired
@@ -63,6 +67,7 @@ type c46Sys struct {
 	net       *c46Net
 	ids       map[string]peer.ID
 	names     map[peer.ID]string
+	gate      string // "" | "pre" | "post" | "both": where the cancel wrapper yields during the API call in progress
 }
 
 // goroutines of the test process before the first run (a leftover goroutine of an earlier run then only
@@ -257,15 +262,60 @@ func (s *c46Sys) add(p string) {
 		s.ps.mu.RLock()
 		ph := s.ps.peers[s.ids[p]]
 		s.ps.mu.RUnlock()
+		hd := &c46Handler{id: h, name: p, ph: ph}
 		s.mu.Lock()
-		s.handlers = append(s.handlers, &c46Handler{id: h, name: p, ph: ph})
+		s.handlers = append(s.handlers, hd)
 		s.mu.Unlock()
+		s.wrapCancel(hd)
 	}
 }
 
-func (s *c46Sys) remove(p string) {
+// wrapCancel replaces ph.cancel (called by handler.stop() only, under ps.mu, hence never concurrently with this
+// write) by a wrapper that logs the sub-step and can let the pending goroutines run around it.
+func (s *c46Sys) wrapCancel(hd *c46Handler) {
+	orig := hd.ph.cancel
+	hd.ph.cancel = func() {
+		s.mu.Lock()
+		dead, gate := s.dead, s.gate
+		s.mu.Unlock()
+		if dead {
+			orig()
+			return
+		}
+		if gate == "pre" || gate == "both" {
+			s.yield()
+		}
+		s.mu.Lock()
+		tm := "locked"
+		if hd.ph.mu.TryLock() {
+			tm = "none"
+			if hd.ph.reconnectTimer != nil {
+				tm = "set"
+			}
+			hd.ph.mu.Unlock()
+		}
+		if !s.dead {
+			s.events = append(s.events, M{"ev": "HCancel", "h": hd.id, "tm": tm})
+		}
+		orig()
+		s.mu.Unlock()
+		if gate == "post" || gate == "both" {
+			s.yield()
+		}
+	}
+}
+
+func (s *c46Sys) setGate(g string) {
+	s.mu.Lock()
+	s.gate = g
+	s.mu.Unlock()
+}
+
+func (s *c46Sys) remove(p, gate string) {
 	s.emit(M{"ev": "RemoveCall", "p": p})
+	s.setGate(gate)
 	s.ps.RemovePeer(s.ids[p])
+	s.setGate("")
 	s.emit(M{"ev": "RemoveRet"})
 }
 
@@ -275,9 +325,11 @@ func (s *c46Sys) start() {
 	s.emit(M{"ev": "StartRet", "err": err != nil})
 }
 
-func (s *c46Sys) stop() {
+func (s *c46Sys) stop(gate string) {
 	s.emit(M{"ev": "StopCall"})
+	s.setGate(gate)
 	s.ps.Stop()
+	s.setGate("")
 	s.emit(M{"ev": "StopRet"})
 }
 
@@ -386,14 +438,22 @@ func (s *c46Sys) decide(ok bool) bool {
 }
 
 // settle yields until every goroutine of the service has finished or waits in Connect; then Quiet is logged.
-func (s *c46Sys) settle() bool {
+func (s *c46Sys) settle() bool { return s.yieldUntilQuiet(true) }
+
+// yield does the same from inside an API call (between the sub-steps of handler.stop()): nothing is logged, and
+// goroutines that wait for a mutex held by the call simply stay pending.
+func (s *c46Sys) yield() { s.yieldUntilQuiet(false) }
+
+func (s *c46Sys) yieldUntilQuiet(log bool) bool {
 	for i := 0; i < 400; i++ {
 		runtime.Gosched()
 		s.mu.Lock()
 		waiting := len(s.gates)
 		s.mu.Unlock()
 		if runtime.NumGoroutine() <= c46Base+waiting {
-			s.emit(M{"ev": "Quiet", "dials": waiting})
+			if log {
+				s.emit(M{"ev": "Quiet", "dials": waiting})
+			}
 			return true
 		}
 		if i > 20 {
@@ -447,11 +507,11 @@ func (s *c46Sys) exec(script []string) {
 		case "add":
 			s.add(f[1])
 		case "remove":
-			s.remove(f[1])
+			s.remove(f[1], append(f, "")[2])
 		case "start":
 			s.start()
 		case "stop":
-			s.stop()
+			s.stop(append(f, "")[1])
 		case "conn":
 			s.env(f[1], true)
 		case "disc":
@@ -519,7 +579,8 @@ func TestVerifC46(t *testing.T) {
 	}
 }
 
-// Directed histories for the two suspected defects (each in a Stop and a RemovePeer / first-attempt variant).
+// Directed histories for the two suspected defects (each in a Stop and a RemovePeer / first-attempt variant)
+// and for the windows between the sub-steps of handler.stop().
 func c46Directed() [][]string {
 	return [][]string{
 		// a Disconnected notification's goroutine runs after Stop()
@@ -532,6 +593,20 @@ func c46Directed() [][]string {
 		{"add a", "start", "settle", "fire", "dialok", "disc a", "settle", "conn a", "settle", "disc a", "settle"},
 		// ... the same after one failed attempt
 		{"add a", "start", "settle", "fire", "dialfail", "settle", "fire", "dialok", "disc a", "settle"},
+		// handler goroutines run BETWEEN the sub-steps of handler.stop() (around its ph.cancel()):
+		// a Disconnected notification's goroutine inside Stop()
+		{"add a", "start", "settle", "conn a", "settle", "disc a", "stop pre", "settle", "fire", "settle", "fire", "settle"},
+		// AddPeer's goroutine inside RemovePeer()
+		{"start", "add a", "remove a pre", "settle", "fire", "settle"},
+		// Start's goroutines of two handlers inside Stop()
+		{"add a", "add b", "start", "stop both", "settle", "fire", "settle"},
+		// a notification goroutine right after the cancel, the peer is added again
+		{"add a", "start", "settle", "conn a", "settle", "disc a", "remove a post", "add a", "settle", "fire 1", "fire 2", "settle"},
+		// a Connect in flight is cancelled and its reconnect finishes inside RemovePeer() / Stop()
+		{"add a", "start", "settle", "fire", "remove a post", "settle", "fire", "settle"},
+		{"add a", "start", "settle", "fire", "disc a", "stop both", "settle", "fire", "settle"},
+		// an armed timer and a pending notification goroutine
+		{"add a", "start", "settle", "conn a", "disc a", "remove a both", "settle", "fire", "settle"},
 	}
 }
 
@@ -558,12 +633,12 @@ func c46Random() {
 			case x < 12:
 				sc = append(sc, "add "+p)
 			case x < 18:
-				sc = append(sc, "remove "+p)
+				sc = append(sc, "remove "+p+[]string{"", " pre", " post", " both"}[rng.Intn(4)])
 			case x < 26 && !started || x < 19:
 				sc = append(sc, "start")
 				started = true
 			case x < 30:
-				sc = append(sc, "stop")
+				sc = append(sc, "stop"+[]string{"", " pre", " post", " both"}[rng.Intn(4)])
 			case x < 42:
 				sc = append(sc, "conn "+p)
 			case x < 54:
